@@ -398,6 +398,18 @@ S4 = {
  "C13": ("Bounded additions (session 4): windows of unequal length (shortest first), attached objects containing windows without a peak.", None, None),
  "C16": ("Bounded addition (session 4): fn_std exactly 0.", None, None),
 }
+# later additions of session 4 (appended to the S4 texts; one entry per property, sentences separated by blanks)
+S4_MORE = {
+ "C01": "Dispatch proved semantically (contracts/dispatch.py): process() and traditional_hvsr_processing_base() return what the table entry of the settings' key returns for the caller's "
+        "recordings and the caller's settings object, that entry is called exactly once and no other entry at all - 4 + 12 keys, table entries symbolic, any body (the textual "
+        "obligation on the spelling of the two bodies remains as a second, undecided-on-rewrite witness).",
+ "C03": "process() under contract: the driver registered for the settings' processing method is called once with the caller's own list (hence its order) and settings object and its result "
+        "is returned unchanged (4 methods).",
+ "C10": "preprocess() under contract: the routine registered for the settings' preprocessing method is called once with the caller's recordings and settings; result returned unchanged.",
+ "C19": "The two dispatchers the worker calls (preprocess, process) are under contract: the registered routine, once, with the caller's arguments.",
+}
+for _k, _v in S4_MORE.items():
+    S4[_k] = ((S4[_k][0] + " " + _v,) + tuple(S4[_k][1:])) if _k in S4 else (_v, None, None)
 for _pid, (_t, _n, _tech) in S4.items():
     cat, text, note, tech, ref = CLAIMS[_pid]
     CLAIMS[_pid] = (cat, text + " " + _t, note if _n is None else note + " " + _n, tech if _tech is None else _tech, ref)
